@@ -3,9 +3,14 @@
 package verifharness
 
 import (
+	"crypto/sha256"
+	"encoding/hex"
 	"encoding/json"
 	"errors"
+	"fmt"
+	"os"
 	"reflect"
+	"strings"
 	"testing"
 
 	wasmvmtypes "github.com/CosmWasm/wasmvm/types"
@@ -93,9 +98,81 @@ func c12WasmVariants(t *testing.T) (names []string, bodies [][]byte) {
 	return
 }
 
-// TestC12: (1) every position-related message x {owner, two non-owners} on reachable states,
-// (2) every custom wasm message variant x chain id x sender through the real CustomMessenger,
-// (3) the kill switch x {admin, others}.
+// c12VictimDigest: the balances of one position owner and every position record of his (fetched
+// through the keepers by the ids of his view).  "A non-owner's message does not touch them."
+func c12VictimDigest(a *chain.App, ctx sdk.Context, v *c12World) string {
+	h := sha256.New()
+	p := func(x ...interface{}) { fmt.Fprintln(h, x...) }
+	p(a.BankKeeper.GetAllBalances(ctx, v.Owner).String())
+	va, f1 := a.VaultKeeper.GetVault(ctx, v.VaultID)
+	p("vault", f1, va.String())
+	lo, f2 := a.LockerKeeper.GetLocker(ctx, v.LockerID)
+	p("locker", f2, lo.String())
+	l1, f3 := a.LendKeeper.GetLend(ctx, v.LendID)
+	p("lend", f3, l1.String())
+	l2, f4 := a.LendKeeper.GetLend(ctx, v.BorrowLendID)
+	p("lendB", f4, l2.String())
+	bo, f5 := a.LendKeeper.GetBorrow(ctx, v.BorrowID)
+	p("borrow", f5, bo.String())
+	for _, id := range append([]uint64{v.OrderID}, v.MMOrderIDs...) {
+		o, f := a.LiquidityKeeper.GetOrder(ctx, v.LiqApp, v.LiqPair, id)
+		p("order", id, f, o.String())
+	}
+	af, f6 := a.LiquidityKeeper.GetActiveFarmer(ctx, v.LiqApp, v.LiqPool, v.Owner)
+	p("afarm", f6, af.String())
+	qf, f7 := a.LiquidityKeeper.GetQueuedFarmer(ctx, v.LiqApp, v.LiqPool, v.Owner)
+	p("qfarm", f7, qf.String())
+	bd, f8 := a.NewaucKeeper.GetUserLimitBidData(ctx, v.BidDebtAsset, v.BidCollateralAsset, v.BidPremium, v.Owner.String())
+	p("bid", f8, bd.String())
+	return hex.EncodeToString(h.Sum(nil))[:24]
+}
+
+// the position-id fields of the messages and the kind of position each names
+var c12IDFieldKind = map[string]string{"UserVaultId": "vault", "LockerId": "locker", "LendId": "lend", "BorrowId": "borrow", "OrderId": "order"}
+
+// c12NamedIDs: (kind, id) for every position-id field of the message (read off the struct by reflection)
+func c12NamedIDs(msg sdk.Msg) map[string]uint64 {
+	out := map[string]uint64{}
+	rv := reflect.ValueOf(msg)
+	if rv.Kind() == reflect.Ptr {
+		rv = rv.Elem()
+	}
+	if rv.Kind() != reflect.Struct {
+		return out
+	}
+	for i := 0; i < rv.NumField(); i++ {
+		if k, ok := c12IDFieldKind[rv.Type().Field(i).Name]; ok && rv.Field(i).Kind() == reflect.Uint64 {
+			out[k] = rv.Field(i).Uint()
+		}
+	}
+	return out
+}
+
+// c12Collides: the signer (a position owner, view s) owns a position of ANOTHER kind whose numeric
+// id equals an id named by the message
+func c12Collides(msg sdk.Msg, s *c12World) bool {
+	own := map[string][]uint64{"vault": {s.VaultID}, "locker": {s.LockerID}, "lend": {s.LendID, s.BorrowLendID}, "borrow": {s.BorrowID}, "order": {s.OrderID}}
+	for kind, id := range c12NamedIDs(msg) {
+		for k2, ids := range own {
+			if k2 == kind {
+				continue
+			}
+			for _, x := range ids {
+				if x == id {
+					return true
+				}
+			}
+		}
+	}
+	return false
+}
+
+// TestC12: (1) every message of the five msg servers, naming the positions of EVERY one of three
+// position owners whose position ids are deliberately misaligned across kinds (c12Orders), signed by
+// the owner, by each of the two OTHER position owners (who own a position of another kind with the
+// same numeric id and one of the same kind with another id), by an account that owns nothing and
+// by a fresh funded account; (2) every custom wasm message variant x chain id x sender through the
+// real CustomMessenger, (3) the kill switch x {admin, others}.
 func TestC12(t *testing.T) {
 	// the chain compares contractAddr.String() with "comdex1..." literals: use the chain's own
 	// bech32 prefixes (the test app otherwise runs with the SDK default "cosmos")
@@ -105,62 +182,113 @@ func TestC12(t *testing.T) {
 	defer tr.close()
 	r := newRng(seed())
 	only := envInt("VERIF_CASE", -1)
-	hist := envInt("VERIF_HIST", 2) // history variants per (message, signer)
-	w := c12Setup(t, a, base)
+	hist := envInt("VERIF_HIST", 2) // history variants per (message, owner, signer)
+	views := c12SetupN(t, a, base, 3)
+	w := views[0]
 	ci := 0
+	for _, v := range views {
+		tr.p("# owner %d: vault %d locker %d lend %d lendB %d borrow %d order %d", v.OwnerIdx, v.VaultID, v.LockerID, v.LendID, v.BorrowLendID, v.BorrowID, v.OrderID)
+	}
 
 	// ---------- (1) position messages ----------
+	// Case ids do not depend on VERIF_HIST / VERIF_FOCUS: id = (((owner*nmsgs + message)*nsig + signer)*c12HistMax + history variant),
+	// and the random parameters of a case come from a PRNG derived from (seed, id) - so VERIF_CASE=<id> re-runs
+	// exactly that case whatever budget the run that found it had.
+	const c12HistMax = 64
+	if hist > c12HistMax {
+		hist = c12HistMax
+	}
+	focus := map[string]bool{}
+	for _, h := range strings.Split(os.Getenv("VERIF_FOCUS"), ",") {
+		if h = strings.TrimSpace(h); h != "" {
+			focus[h] = true
+		}
+	}
+	if len(focus) > 0 && only < 0 {
+		tr.p("# focus %s", os.Getenv("VERIF_FOCUS")) // tells the runner that the other handlers were left out on purpose
+	}
 	nmsgs := len(c12Messages(w, w.Owner))
-	for mi := 0; mi < nmsgs; mi++ {
-		for si := 0; si < 3; si++ {
-			for hv := 0; hv < hist; hv++ {
-				// random parameters are drawn for every case, also for skipped ones
-				third := addrN(100 + r.intn(50))
-				hlen := 0
-				if hv > 0 {
-					hlen = 1 + r.intn(3)
-				}
-				hidx := make([]int, hlen)
-				for i := range hidx {
-					hidx[i] = r.intn(nmsgs)
-				}
-				id := ci
-				ci++
-				if only >= 0 && id != only {
-					continue
-				}
-				ctx, _ := w.Ctx.CacheContext()
-				signer := w.Owner
-				switch si {
-				case 1:
-					signer = w.Other1
-				case 2:
-					signer = third
-					fund(t, a, ctx, third, a.BankKeeper.GetAllBalances(ctx, w.Other2))
-				}
-				// a reachable state: a short history of the owner's own (successful or not) operations
-				nok := 0
-				for _, hi := range hidx {
-					hm := c12Messages(w, w.Owner)[hi]
-					if hm.Handler == "vault.MsgClose" || hm.Handler == "locker.MsgCloseLocker" || hm.Handler == "lend.CloseLend" ||
-						hm.Handler == "lend.CloseBorrow" || hm.Handler == "lend.RepayWithdraw" || hm.Handler == "liquidity.CancelOrder" ||
-						hm.Handler == "liquidity.CancelAllOrders" || hm.Handler == "auctionsV2.MsgCancelLimitBid" {
-						continue // keep the positions alive so that the case stays meaningful
+	nsig := len(views) + 2
+	for oi, v := range views {
+		for mi := 0; mi < nmsgs; mi++ {
+			if len(focus) > 0 && only < 0 && !focus[c12Messages(v, v.Owner)[mi].Handler] {
+				continue // a directed search concentrates on the handlers of the broken table rows
+			}
+			// signer index: 0 = the owner, 1..2 = the other position owners, 3 = an account owning nothing, 4 = fresh funded account
+			for si := 0; si < nsig; si++ {
+				for hv := 0; hv < c12HistMax; hv++ {
+					id := ((oi*nmsgs+mi)*nsig+si)*c12HistMax + hv
+					if only >= 0 && id != only {
+						continue
 					}
-					if cls, _, _ := execMsg(a, ctx, hm.Msg); cls == "ok" {
-						nok++
+					if only < 0 && hv >= hist {
+						break
+					}
+					cr := newRng(seed()*1000003 + uint64(id))
+					third := addrN(100 + cr.intn(50))
+					hlen := 0
+					if hv > 0 {
+						hlen = 1 + cr.intn(3)
+					}
+					hidx := make([]int, hlen)
+					for i := range hidx {
+						hidx[i] = cr.intn(nmsgs)
+					}
+					ctx, _ := v.Ctx.CacheContext()
+					signer := v.Owner
+					var sview *c12World // the signer's own positions, when it has any
+					switch {
+					case si == 0:
+						sview = v
+					case si < len(views):
+						sview = views[(oi+si)%len(views)]
+						signer = sview.Owner
+					case si == len(views):
+						signer = v.Other1
+					default:
+						signer = third
+						fund(t, a, ctx, third, a.BankKeeper.GetAllBalances(ctx, v.Other2))
+					}
+					// a reachable state: a short history of the owner's own (successful or not) operations
+					nok := 0
+					for _, hi := range hidx {
+						hm := c12Messages(v, v.Owner)[hi]
+						if hm.Handler == "vault.MsgClose" || hm.Handler == "locker.MsgCloseLocker" || hm.Handler == "lend.CloseLend" ||
+							hm.Handler == "lend.CloseBorrow" || hm.Handler == "lend.RepayWithdraw" || hm.Handler == "liquidity.CancelOrder" ||
+							hm.Handler == "liquidity.CancelAllOrders" || hm.Handler == "auctionsV2.MsgCancelLimitBid" {
+							continue // keep the positions alive so that the case stays meaningful
+						}
+						if cls, _, _ := execMsg(a, ctx, hm.Msg); cls == "ok" {
+							nok++
+						}
+					}
+					m := c12Messages(v, signer)[mi]
+					// reference: does the same message, signed by the owner, succeed in this state?
+					refCtx, _ := ctx.CacheContext()
+					ownerCls, _, _ := execMsg(a, refCtx, c12Messages(v, v.Owner)[mi].Msg)
+					vb := c12VictimDigest(a, ctx, v)
+					cls, kind, changed := c12RunMsg(a, ctx, m.Msg)
+					victimChanged := si != 0 && vb != c12VictimDigest(a, ctx, v)
+					coll := sview != nil && si != 0 && c12Collides(m.Msg, sview)
+					tr.p("case %d pos %s %s %d %d %s %s %s %s %d %s %s %s", id, m.Handler, b2s(m.NamesPosition), si, nok, ownerCls, cls, kind, b2s(changed),
+						oi, b2s(sview != nil), b2s(coll), b2s(victimChanged))
+					// for the replay file: the message, the named owner's position ids, the signer's own
+					tr.p("  msg %T %s", m.Msg, m.Msg.String())
+					tr.p("  named-owner %d %s: vault %d locker %d lend %d lendB %d borrow %d (on lend %d) order %d", oi, v.Owner, v.VaultID, v.LockerID, v.LendID, v.BorrowLendID, v.BorrowID, v.BorrowLendID, v.OrderID)
+					if sview != nil && si != 0 {
+						tr.p("  signer %s owns: vault %d locker %d lend %d lendB %d borrow %d order %d", signer, sview.VaultID, sview.LockerID, sview.LendID, sview.BorrowLendID, sview.BorrowID, sview.OrderID)
+					} else if si != 0 {
+						tr.p("  signer %s owns no position", signer)
+					}
+					for _, hi := range hidx {
+						tr.p("  history-of-owner %s", c12Messages(v, v.Owner)[hi].Handler)
 					}
 				}
-				m := c12Messages(w, signer)[mi]
-				// reference: does the same message, signed by the owner, succeed in this state?
-				refCtx, _ := ctx.CacheContext()
-				ownerCls, _, _ := execMsg(a, refCtx, c12Messages(w, w.Owner)[mi].Msg)
-				cls, kind, changed := c12RunMsg(a, ctx, m.Msg)
-				tr.p("case %d pos %s %s %d %d %s %s %s %s", id, m.Handler, b2s(m.NamesPosition), si, nok, ownerCls, cls, kind, b2s(changed))
 			}
 		}
 	}
 
+	ci = len(views) * nmsgs * nsig * c12HistMax
 	// ---------- (2) custom wasm messages ----------
 	messenger := comdexwasm.CustomMessageDecorator(a.LockerKeeper, a.Rewardskeeper, a.AssetKeeper, a.CollectorKeeper, a.LiquidationKeeper,
 		a.AuctionKeeper, a.TokenmintKeeper, a.EsmKeeper, a.VaultKeeper, a.LiquidityKeeper)(nil)
